@@ -335,6 +335,9 @@ var c12MultiLine = []c12MLKit{
 	{"invalid escape in the middle one of three strings", "c12x = [ \"a\" ,\n  «\"b\\q\"» ,\n  \"c\" ]", "runtime", false},
 	{"invalid escape in the first of two member values", "c12x = { a : «\"\\q\"» ,\n  b : \"fine\" ,\n  \"c\" : \"fine\" }", "runtime", false},
 	{"division by zero in the first of three call arguments", "c12x = c11fun (\n  «1 / 0» ,\n  2 / 1 ,\n  3 / 1\n)", "runtime", false},
+	{"unknown $-variable as the second loop variable", "for ( c12a ,\n  «$c12nope» in [ 1 ] ) { }", "runtime", false},
+	{"unknown $-variable as the second loop variable, on one line", "for ( c12a , «$c12nope» in [ 1 ] ) { }", "runtime", false},
+	{"unknown $-variable as the loop variable", "for (\n  «$c12nope» ,\n  c12b in [ 1 ] ) { }", "runtime", false},
 	{"illegal character in an array literal", "c12x = [ 1 ,\n  2 «@» ,\n  3 ]", "syntax", true},
 	{"illegal character in an object literal", "c12x = { a : 1 ,\n\n  b «?» : 2 }", "syntax", true},
 	{"invalid assignment in a block", "if ( true ) {\n  c12y = 1\n  «1 = 2»\n}", "syntax", false},
